@@ -5,7 +5,7 @@ import warnings
 from fractions import Fraction
 
 from .. import core, tmwork
-from ..oracles import angle as ax
+from ..oracles import angle as ax, tm
 from ..oracles.geod import to_xyz
 
 ID = 'C15'
@@ -62,6 +62,8 @@ def gen_start(rnd):
     else:
         lon = rnd.uniform(-179.99, 179.99)
 
+    if prj == 'utm' and rnd.random() < 0.03:
+        lon = rnd.choice([-180.0, 180.0, -179.99999999999, 179.99999999999])     # on the 180 degree meridian: zone 1 meets zone 60
     if rnd.random() < 0.35:
         k = rnd.choice([1, 2, 3, 'min'])
         if k == 'min':
@@ -70,6 +72,20 @@ def gen_start(rnd):
             lat, lon = round(lat, k), round(lon, k)
         if prj == 'isg':
             lon = min(max(lon, 138.01), 155.99)
+
+    if prj == 'utm' and rnd.random() < 0.08:
+        # a position whose grid ordinate xi = y / (k0 A) sits on (a millimetre to kilometres off) a zero of one of the
+        # trigonometric factors of the Krueger series
+        a_e, invf_e = tmwork.ell_published(ell)
+        cm = math.floor((lon + 180.0) / 6.0) * 6.0 - 177.0
+        y = tmwork.series_zero_y(rnd, a_e, invf_e, 0.9996) * rnd.choice([1, -1])
+        try:
+            x0 = tm.forward(math.degrees(y / 6.4e6), lon - cm, a_e, invf_e, 0.9996)[0]
+            la_z, dl_z, _, _ = tm.inverse(x0, y, a_e, invf_e, 0.9996)
+            if -79.5 <= la_z <= 83.5 and abs(dl_z) < 2.99:
+                lat, lon = la_z, cm + dl_z
+        except (ValueError, OverflowError, ZeroDivisionError):
+            pass
 
     def hs():
         s = rnd.choice(HSTATES)
